@@ -233,7 +233,7 @@ theorem step_wf (sp : Spec) (w : World) (ev : Event) :
           · split
             · exact Or.inl rfl
             · split
-              · exact Or.inl rfl
+              · exact Or.inl (checkAffected_tasks sp _ t).2
               · split <;> exact Or.inl rfl
       | rpcResult t ok =>
         simp only
